@@ -235,12 +235,12 @@ def main(tier):
     rng = H.rng(PROP)
     mode = default_mode(prog)
     cfg = C.config_consts(prog)
-    D = 6 if tier == 'quick' else 12
+    D = 8 if tier == 'quick' else 12
     tasks = []
     for L in range(1, D + 1):
         for scale in range(-4, L + 5):
             for N in range(0, L + 4):
-                if tier == 'quick' and (L + scale + N) % 2 and L > 3:
+                if tier == 'quick' and (L + scale + N) % 2 and L > 5:
                     continue
                 tasks.append({'kind': 'fixed', 'L': L, 'scale': scale, 'N': N, 'mode': mode, 'cfg': cfg})
                 if scale in (-2, 0, 1, L - 1, L, L + 2):
